@@ -14,6 +14,8 @@ import (
 	"encoding/json"
 	"flag"
 	"fmt"
+	"io"
+	"log"
 	"math"
 	"os"
 	"path/filepath"
@@ -36,6 +38,9 @@ var prop = flag.String("prop", "C17", "property: C17|C18|C19")
 
 const casesPerDB = 150
 
+// share of maintenance cases in a C19 run (VERIF_PERC_MAINT_PCT overrides it for experiments)
+var maintPct = 12
+
 type engine struct {
 	prop   string
 	db     *NoKV.DB
@@ -43,6 +48,8 @@ type engine struct {
 	nCases int
 	seq    uint32
 	stats  map[string]int
+
+	maintCases int
 }
 
 func (e *engine) open() {
@@ -89,6 +96,8 @@ func kindName(op pb.Mutation_Op) string {
 type caseCtx struct {
 	e      *engine
 	prefix []byte
+	db     *NoKV.DB
+	maint  bool // the case drives memtable rotation / flush / compaction itself, on its own DB
 }
 
 func (c *caseCtx) phys(k []byte) []byte {
@@ -172,7 +181,7 @@ func (c *caseCtx) keys(s string) [][]byte {
 }
 
 func (c *caseCtx) apply(r *pb.Request) (*pb.Response, bool) {
-	resp, err := kv.Apply(c.e.db, &pb.RaftCmdRequest{Header: &pb.CmdHeader{RegionId: 1}, Requests: []*pb.Request{r}})
+	resp, err := kv.Apply(c.db, &pb.RaftCmdRequest{Header: &pb.CmdHeader{RegionId: 1}, Requests: []*pb.Request{r}})
 	if err != nil || resp == nil || len(resp.Responses) != 1 {
 		return nil, false
 	}
@@ -289,7 +298,7 @@ func (c *caseCtx) exec(op string) string {
 		}
 		return "kvs=" + ks + ";err=" + c.keyErr(r.GetScan().GetError())
 	case f[0] == "lock" && len(f) == 2:
-		l, err := percolator.NewReader(c.e.db).GetLock(c.phys(hlib.UnHex(f[1])))
+		l, err := percolator.NewReader(c.db).GetLock(c.phys(hlib.UnHex(f[1])))
 		if err != nil {
 			return "error"
 		}
@@ -299,6 +308,24 @@ func (c *caseCtx) exec(op string) string {
 		return "lock(" + c.lockFields(l.Ts, l.TTL, l.Kind, l.MinCommitTs, l.Primary) + ")"
 	case f[0] == "dump" || f[0] == "inv":
 		return c.dump(f[0] == "inv")
+	case c.maint && f[0] == "rotate" && len(f) == 1:
+		c.db.VerifLSM().VerifRotate()
+		return "ok " + c.shape()
+	case c.maint && f[0] == "flush" && len(f) == 1:
+		did, err := c.db.VerifLSM().VerifFlushOldest()
+		switch {
+		case err != nil:
+			return "error:" + strings.ReplaceAll(err.Error(), " ", "_")
+		case did:
+			return "ok " + c.shape()
+		}
+		return "none " + c.shape()
+	case c.maint && f[0] == "compact" && len(f) == 2:
+		res, err := c.db.VerifLSM().VerifCompact(f[1])
+		if err != nil {
+			return "error:" + strings.ReplaceAll(err.Error(), " ", "_") + " " + c.shape()
+		}
+		return res + " " + c.shape()
 	}
 	return "bad-op"
 }
@@ -312,8 +339,111 @@ type wrec struct {
 // dump lists every live entry of this case's keys in the three column families (iterator order:
 // default, lock, write; keys ascending; versions descending).  inv=true: count the pairs of
 // committed records of one key with overlapping [start, commit].
+// shape of the LSM tree (same format as the lsm engine's harness); a table outside L0 and the
+// base level would leave the modelled part of the tree and is reported
+func (c *caseCtx) shape() string {
+	l := c.db.VerifLSM()
+	l0, ing, main, others := l.VerifCounts(l.VerifBaseLevel())
+	s := fmt.Sprintf("imm=%d l0=%d ing=%d main=%d", l.VerifImmutables(), l0, ing, main)
+	if len(others) > 0 {
+		s += fmt.Sprintf(" unexpected-levels=%v", others)
+	}
+	return s
+}
+
+// dumpMaint: in a maintenance case a record of one internal key can sit in several tables.  The
+// dump then reports, for every internal key present anywhere, what the code's own read path
+// answers for it: default CF through GetVersionedEntry(key, version), lock CF through GetLock;
+// the write CF as the internal iterator presents it (its internal keys are written once).
+func (c *caseCtx) dumpMaint(inv bool) string {
+	type ik struct {
+		cf  nkv.ColumnFamily
+		key string
+		ts  uint64
+	}
+	it := c.db.NewInternalIterator(&utils.Options{IsAsc: true})
+	seen := map[ik]bool{}
+	var order []ik
+	var wout []string
+	var ws []wrec
+	for it.Rewind(); it.Valid(); it.Next() {
+		item := it.Item()
+		if item == nil || item.Entry() == nil {
+			continue
+		}
+		en := item.Entry()
+		cf, uk, ts := nkv.SplitInternalKey(en.Key)
+		if !bytes.HasPrefix(uk, c.prefix) {
+			continue
+		}
+		id := ik{cf, string(uk), ts}
+		if seen[id] {
+			continue
+		}
+		seen[id] = true
+		order = append(order, id)
+		if cf == nkv.CFWrite && en.Meta&nkv.BitDelete == 0 {
+			k := hlib.Hex(c.logical(uk))
+			w, err := percolator.DecodeWrite(en.Value)
+			if err != nil {
+				wout = append(wout, "W:"+k+":undecodable")
+				continue
+			}
+			wout = append(wout, fmt.Sprintf("W:%s:%d:%d:%s", k, ts, w.StartTs, kindName(w.Kind)))
+			ws = append(ws, wrec{append([]byte(nil), uk...), ts, w.StartTs, w.Kind})
+		}
+	}
+	it.Close()
+	if inv {
+		return fmt.Sprintf("overlap=%d", overlaps(ws))
+	}
+	var dout, lout []string
+	for _, id := range order {
+		k := hlib.Hex(c.logical([]byte(id.key)))
+		switch id.cf {
+		case nkv.CFDefault:
+			en, err := c.db.GetVersionedEntry(nkv.CFDefault, []byte(id.key), id.ts)
+			if err != nil || en.Meta&nkv.BitDelete > 0 {
+				continue
+			}
+			dout = append(dout, fmt.Sprintf("D:%s:%d:%s", k, id.ts, hlib.Hex(en.Value)))
+		case nkv.CFLock:
+			l, err := percolator.NewReader(c.db).GetLock([]byte(id.key))
+			if err != nil {
+				lout = append(lout, "L:"+k+":error")
+			} else if l != nil {
+				lout = append(lout, fmt.Sprintf("L:%s:%s", k, c.lockFields(l.Ts, l.TTL, l.Kind, l.MinCommitTs, l.Primary)))
+			}
+		}
+	}
+	out := append(append(dout, lout...), wout...)
+	if len(out) == 0 {
+		return "-"
+	}
+	return strings.Join(out, ";")
+}
+
+func overlaps(ws []wrec) int {
+	n := 0
+	for i := range ws {
+		for j := i + 1; j < len(ws); j++ {
+			a, b := ws[i], ws[j]
+			if !bytes.Equal(a.key, b.key) || a.kind == pb.Mutation_Rollback || b.kind == pb.Mutation_Rollback {
+				continue
+			}
+			if !(a.ts < b.start || b.ts < a.start) {
+				n++
+			}
+		}
+	}
+	return n
+}
+
 func (c *caseCtx) dump(inv bool) string {
-	it := c.e.db.NewInternalIterator(&utils.Options{IsAsc: true})
+	if c.maint {
+		return c.dumpMaint(inv)
+	}
+	it := c.db.NewInternalIterator(&utils.Options{IsAsc: true})
 	defer it.Close()
 	var out []string
 	var ws []wrec
@@ -349,19 +479,7 @@ func (c *caseCtx) dump(inv bool) string {
 		}
 	}
 	if inv {
-		n := 0
-		for i := range ws {
-			for j := i + 1; j < len(ws); j++ {
-				a, b := ws[i], ws[j]
-				if !bytes.Equal(a.key, b.key) || a.kind == pb.Mutation_Rollback || b.kind == pb.Mutation_Rollback {
-					continue
-				}
-				if !(a.ts < b.start || b.ts < a.start) {
-					n++
-				}
-			}
-		}
-		return fmt.Sprintf("overlap=%d", n)
+		return fmt.Sprintf("overlap=%d", overlaps(ws))
 	}
 	if len(out) == 0 {
 		return "-"
@@ -369,14 +487,54 @@ func (c *caseCtx) dump(inv bool) string {
 	return strings.Join(out, ";")
 }
 
-func (e *engine) Exec(ops []string) []string {
-	if e.db == nil || e.nCases >= casesPerDB {
-		e.open()
+func isMaintOp(op string) bool {
+	return op == "rotate" || op == "flush" || strings.HasPrefix(op, "compact ")
+}
+
+// openMaint: a DB of its own for one maintenance case, configured like the lsm engine's harness
+// (background compactors stopped right after Open, every maintenance step explicit, ingest batch
+// size 2, memtable and tables far larger than the case).
+func openMaint() (*NoKV.DB, string) {
+	dir, err := os.MkdirTemp("", "verif-perc-m-")
+	if err != nil {
+		panic(err)
 	}
-	e.nCases++
+	opt := &NoKV.Options{WorkDir: dir, MemTableSize: 1 << 20, SSTableMaxSz: 1 << 20, ValueThreshold: 32,
+		ValueLogFileSize: 1 << 20, MaxBatchCount: 1000, MaxBatchSize: 1 << 20, NumCompactors: 1,
+		NumLevelZeroTables: 1000, IngestCompactBatchSize: 2, MemTableEngine: NoKV.MemTableEngine("skiplist")}
+	db := NoKV.Open(opt)
+	db.VerifLSM().VerifStopCompactors()
+	return db, dir
+}
+
+func (e *engine) Exec(ops []string) []string {
+	maint := false
+	for _, op := range ops {
+		if isMaintOp(op) {
+			maint = true
+		}
+	}
 	e.seq++
-	c := &caseCtx{e: e, prefix: make([]byte, 4)}
+	c := &caseCtx{e: e, prefix: make([]byte, 4), maint: maint}
 	binary.BigEndian.PutUint32(c.prefix, e.seq)
+	if maint {
+		db, dir := openMaint()
+		e.maintCases++
+		c.db = db
+		defer func() {
+			func() {
+				defer func() { _ = recover() }()
+				_ = db.Close()
+			}()
+			os.RemoveAll(dir)
+		}()
+	} else {
+		if e.db == nil || e.nCases >= casesPerDB {
+			e.open()
+		}
+		e.nCases++
+		c.db = e.db
+	}
 	out := make([]string, len(ops))
 	for i, op := range ops {
 		out[i] = func() (res string) {
@@ -438,7 +596,112 @@ func subset(r *hlib.Rand, ks [][]byte) [][]byte {
 	return out
 }
 
+// genMaint: a maintenance case (C19).  Two or three transactions on one or two keys; between
+// their prewrite / commit / rollback / resolve / check-status requests the memtable is rotated,
+// sealed memtables are flushed to L0, L0 tables are moved to the base level's ingest buffer, the
+// ingest buffer is merged or drained — every placement of a lock record and of the tombstone
+// that removes it (both live under one internal key) comes up.  The lock of every key touched is
+// read back after every request and after every maintenance step.
+func (e *engine) genMaint(r *hlib.Rand) []string {
+	perm := append([][]byte(nil), keyPool...)
+	for i := range perm {
+		j := i + r.Intn(len(perm)-i)
+		perm[i], perm[j] = perm[j], perm[i]
+	}
+	keys := perm[:1+r.Intn(2)]
+	other := perm[2] // a bystander key: changes the key range (min key) of the tables it lands in
+	type mtxn struct {
+		start, commit, ttl uint64
+		op                 string
+	}
+	var txns []mtxn
+	for i, n := 0, 2+r.Intn(2); i < n; i++ {
+		st := uint64(10 * (i + 1))
+		txns = append(txns, mtxn{st, st + 5, hlib.Pick(r, []uint64{0, 3, 100, 100}), hlib.Pick(r, []string{"P", "P", "D", "L"})})
+	}
+	var ops []string
+	obs := func() {
+		for _, k := range keys {
+			ops = append(ops, "lock "+hlib.Hex(k))
+		}
+	}
+	n := 12 + r.Intn(20)
+	for i := 0; i < n; i++ {
+		t := txns[r.Intn(len(txns))]
+		ks := keys
+		if len(keys) == 2 && r.Chance(40) {
+			ks = keys[r.Intn(2) : r.Intn(2)+1]
+			if len(ks) == 0 {
+				ks = keys[:1]
+			}
+		}
+		switch x := r.Intn(100); {
+		case x < 22:
+			var muts []string
+			for j, k := range ks {
+				val := "-"
+				if t.op == "P" {
+					val = hlib.Hex([]byte(fmt.Sprintf("m%d%c", t.start, 'a'+byte(j))))
+				}
+				muts = append(muts, t.op+":"+hlib.Hex(k)+":"+val)
+			}
+			ops = append(ops, fmt.Sprintf("pw %d %s %d 0 %s", t.start, hlib.Hex(keys[0]), t.ttl, strings.Join(muts, ",")))
+			obs()
+		case x < 32:
+			ops = append(ops, fmt.Sprintf("cm %d %d %s", t.start, t.commit, keyList(ks)))
+			obs()
+		case x < 42:
+			ops = append(ops, fmt.Sprintf("rb %d %s", t.start, keyList(ks)))
+			obs()
+		case x < 46:
+			ops = append(ops, fmt.Sprintf("rl %d %d %s", t.start, hlib.Pick(r, []uint64{0, t.commit}), keyList(keys)))
+			obs()
+		case x < 51:
+			cur := hlib.Pick(r, []uint64{t.start + 1, t.start + t.ttl, t.start + t.ttl + 1, 1000})
+			ops = append(ops, fmt.Sprintf("cs %s %d %d %d %d", hlib.Hex(keys[0]), t.start, cur, r.Intn(2), hlib.Pick(r, []uint64{0, t.start + 3})))
+			obs()
+		case x < 55:
+			// a bystander write that shares the memtable epoch
+			ops = append(ops, fmt.Sprintf("pw %d %s 100 0 P:%s:%s", 70+10*uint64(r.Intn(3)), hlib.Hex(other), hlib.Hex(other), hlib.Hex([]byte("o"))))
+		case x < 60:
+			ops = append(ops, fmt.Sprintf("get %s %d", hlib.Hex(hlib.Pick(r, keys)), hlib.Pick(r, []uint64{t.start, t.commit, 1000})))
+		case x < 70:
+			ops = append(ops, "rotate")
+			obs()
+		case x < 83:
+			ops = append(ops, "rotate", "flush")
+			obs()
+		case x < 91:
+			ops = append(ops, "compact l0move")
+			obs()
+		case x < 96:
+			ops = append(ops, "compact drain")
+			obs()
+		default:
+			ops = append(ops, "compact keep")
+			obs()
+		}
+	}
+	// push everything down step by step, reading the locks at every stage
+	for _, m := range []string{"rotate", "flush", "flush", "compact l0move", "compact l0move", "compact drain", "compact drain"} {
+		ops = append(ops, m)
+		obs()
+	}
+	for _, k := range keys {
+		ops = append(ops, fmt.Sprintf("get %s 1000", hlib.Hex(k)))
+	}
+	ops = append(ops, "inv", "dump")
+	return ops
+}
+
 func (e *engine) Gen(r *hlib.Rand, tier string) []string {
+	pct := maintPct
+	if tier == "thorough" && os.Getenv("VERIF_PERC_MAINT_PCT") == "" {
+		pct = 8 // a maintenance case opens and closes a DB of its own
+	}
+	if e.prop == "C19" && r.Chance(pct) {
+		return e.genMaint(r)
+	}
 	nk := 2 + r.Intn(3)
 	perm := append([][]byte(nil), keyPool...)
 	for i := range perm {
@@ -620,7 +883,7 @@ func (e *engine) Rule() string {
 	case "C18":
 		return "C18: 2-5 transactions (start ts 10,20,..; commit ts start+5, sometimes +7 or below start) over 2-4 of 6 keys (prefix pairs, 00/ff bytes), requests in random order with duplicates, late requests, foreign keys, empty keys; non-trivial = at least one successful commit, one rollback or resolve, and one refused request (commit/prewrite answered with an error)"
 	case "C19":
-		return "C19: same histories, weighted to lock observations and CheckTxnStatus (ttl 0, small, 2^64-1 and wrapping; caller ts pushing min-commit); non-trivial = a key is seen locked and later unlocked, or CheckTxnStatus took an action"
+		return "C19: same histories, weighted to lock observations and CheckTxnStatus (ttl 0, small, 2^64-1 and wrapping; caller ts pushing min-commit); ~12% (thorough tier 8%) maintenance cases: 2-3 transactions on 1-2 keys with rotate / flush / compact l0move|drain|keep placed between prewrite, commit, rollback, resolve and check-status, the locks read back after every step (own DB, compactors stopped, lsm verif hooks); non-trivial = a key is seen locked and later unlocked, or CheckTxnStatus took an action (maintenance cases: additionally at least one flush happened in between)"
 	}
 	return "C17: same histories, weighted to reads: gets (each often repeated as a 1-key scan) and range scans at timestamps around every start/commit ts, 0 and 2^64-1; non-trivial = some read returned a committed value and some read met a lock, a rollback record or a lock-only record"
 }
@@ -680,7 +943,8 @@ func (e *engine) Nontrivial(ops, impl, model, spec []string) bool {
 }
 
 func (e *engine) Extra() map[string]any {
-	return map[string]any{"cases_per_db": casesPerDB, "maintenance": "not provoked (default options, memtable only); composition with flush/compaction is C02's"}
+	return map[string]any{"cases_per_db": casesPerDB, "maintenance_case_executions": e.maintCases,
+		"maintenance": "C19: ~12% (thorough 8%) of the cases run on a DB of their own with stopped compactors and place rotate/flush/compact l0move|keep|drain between the requests on one or two keys (lsm verif hooks); all other cases: default options, memtable only"}
 }
 
 // ---------------------------------------------------------------- main
@@ -755,6 +1019,10 @@ func main() {
 	if *prop != "C17" && *prop != "C18" && *prop != "C19" {
 		fmt.Fprintln(os.Stderr, "unknown -prop")
 		os.Exit(2)
+	}
+	log.SetOutput(io.Discard) // the engine logs every compaction
+	if v, err := strconv.Atoi(os.Getenv("VERIF_PERC_MAINT_PCT")); err == nil {
+		maintPct = v
 	}
 	completeCfg(os.Args, *prop)
 	mixSeed(os.Args)
